@@ -4,10 +4,11 @@
   about the int16 window computations.
 
   `ScoreLaws c Good TTok μ`:
-  * `EvalRange`: the static evaluation of a `Good` board lies strictly inside the mate band
-    `(-Inf+MaxPlies, Inf-MaxPlies)`.  This is an obligation on the evaluation model AND on the
-    class of roots: the real `eval.Eval` exceeds the band on legal heavy-material positions
-    (`3k4/8/8/8/8/3K4/QQQQQQQQ/Q7 b`: -10434), see the C06 findings;
+  * the static evaluation needs no law any more: since repo commit 2ab22cc the search uses
+    `evaluate = Clamp(eval.Eval, -Inf+MaxPlies+1, Inf-MaxPlies-1)`, and `evaluate_range` proves from
+    the regenerated `clampS16` that it lies strictly inside the mate band for an ARBITRARY raw
+    evaluation.  (Before that commit `EvalRange` was a genuine restriction on roots: the raw
+    `eval.Eval` is -10434 on `3k4/8/8/8/8/3K4/QQQQQQQQ/Q7 b`, finding D9.);
   * `TTok` is a predicate on the persistent state ("every probe answers a value within ±Inf"),
     true of a cleared table, preserved by stores of in-range values, by `FailHigh` and by `gen++`.
     (For `transp.Table`, which keeps mate scores relative to the node, `tt_store` holds for values
@@ -46,12 +47,17 @@ def RootWin (a b : Int) : Prop := WinOK a b ∧ b ≤ rfpSafe
 
 instance (a b : Int) : Decidable (RootWin a b) := by unfold RootWin WinOK; exact inferInstance
 
-/-- the static evaluation of a `Good` board is strictly inside the mate band. -/
-def EvalRange (c : Comp σ π) (Good : Board → Prop) : Prop :=
-  ∀ b, Good b → -10000 + 64 < c.eval b ∧ c.eval b < 10000 - 64
+/-- `EvalRange`: the evaluation the search uses is strictly inside the mate band
+    `(-Inf+MaxPlies, Inf-MaxPlies)` — a theorem about the clamp, for every raw evaluation. -/
+theorem evaluate_range (c : Comp σ π) (b : Board) :
+    (-10000 : Int) + 64 < evaluate c b ∧ evaluate c b < (10000 : Int) - 64 := by
+  unfold evaluate Gen.Funcs.clampS16 Search.Inf maxPlies
+  generalize c.eval b = x
+  show (-10000:Int) + 64 < min ((10000:Int) - 64 - 1) (max x (-(10000:Int) + 64 + 1)) ∧
+    min ((10000:Int) - 64 - 1) (max x (-(10000:Int) + 64 + 1)) < (10000:Int) - 64
+  omega
 
 structure ScoreLaws (c : Comp σ π) (Good : Board → Prop) (TTok : σ → Prop) (μ : Board → Nat) : Prop where
-  eval_range : EvalRange c Good
   tt_probe : ∀ ps b ply e, TTok ps → c.ttProbe ps b ply = some e → InR e.value
   tt_store : ∀ ps b d ply m v bd, TTok ps → InR v → TTok (c.ttStore ps b d ply m v bd)
   tt_failHigh : ∀ ps d b p hs, TTok ps → TTok (c.failHigh ps d b p hs)
@@ -77,13 +83,17 @@ theorem neg_inR {v : Int} (h : InR v) : InR (neg v) := by
 
 theorem inR_zero : InR 0 := by unfold InR; omega
 
+theorem max_le_of {a b hi : Int} (h1 : a ≤ hi) (h2 : b ≤ hi) : max a b ≤ hi := by omega
+theorem le_max_of {a b lo : Int} (h1 : lo ≤ a) : lo ≤ max a b := by omega
+theorem le_max_of' {a b lo : Int} (h1 : lo ≤ b) : lo ≤ max a b := by omega
+
 theorem inR_mate {ply : Int} (h0 : 0 ≤ ply) (h1 : ply ≤ 127) : InR (wrapS16 (-Inf + ply)) := by
   unfold InR
   rw [Inf_eq, wrapS16_id (by omega) (by omega)]; omega
 
-theorem inR_eval {c : Comp σ π} {Good : Board → Prop} (h : EvalRange c Good) {b : Board} (hg : Good b) : InR (c.eval b) := by
-  have := h b hg
-  unfold InR; omega
+theorem inR_eval (c : Comp σ π) (b : Board) : InR (evaluate c b) := by
+  have h := evaluate_range c b
+  exact ⟨Int.le_of_lt (Int.lt_trans (by decide) h.1), Int.le_of_lt (Int.lt_trans h.2 (by decide))⟩
 
 /-- the full child window `(-beta, -alpha)`. -/
 theorem winOK_full {a b : Int} (ha1 : -32767 ≤ a) (ha2 : a ≤ 10000) (hb1 : -10000 ≤ b) (hb2 : b ≤ 32767) :
